@@ -548,8 +548,19 @@ class List(Sequence):
 
     def sort(self, cmp=None, key=None, reverse=False):
         assert cmp is None  # no cmp for list.sort in py3
+        if key is not None:
+            # the key function is for the members, not for the slots
+            member_key = key
+
+            def key(slot):
+                return member_key(slot.element)
+
         list.sort(self, key=key, reverse=reverse)
         self._renumber()
+
+    def __reversed__(self):
+        for slot in list.__reversed__(self):
+            yield slot.element
 
     def reverse(self):
         list.reverse(self)
